@@ -225,6 +225,18 @@ func checkC12(c any, r *Rec) error {
 	if !reflect.DeepEqual(map[string]any(set.Globals), map[string]any(BuildContext(cs.Globals))) {
 		return fmt.Errorf("execution modified the set's Globals: now %s\n %s", deepDump(set.Globals), desc)
 	}
+	// a binding must not survive the execution either: the same compiled template rendered twice
+	// more gives the same text (a set / with / loop variable left behind would show in the probes)
+	if werr == nil {
+		outs, errs, cerr := mmEngineSeq(cs.Root, cs.Files, cs.Globals, []Val{cs.Ctx, cs.Ctx})
+		if cerr == nil {
+			for i := range outs {
+				if errs[i] != nil || outs[i] != want {
+					return fmt.Errorf("rendering %d of one compiled template: got %q (err %v), want %q\n %s", i+1, outs[i], errs[i], want, desc)
+				}
+			}
+		}
+	}
 	if strings.Contains(src, "{% include") {
 		r.Class("with-include")
 	}
